@@ -85,24 +85,27 @@ def rule_calc_deltas(ctx):
             seen.add('new-session')
             ctx.check('NewSession' in o, 'K4', 'calc_deltas:session-differs=>NewSession', 'new session -> snapshot', 'session differs -> %s' % o)
             continue
-        if ser is not None and p.kind == 'return' and re.match(r'^Result::Ok\(', o) and not any('first' in v or 'DeltaInfo::serial' in v for v in cm if v.startswith('call:Ord')):
-            # the "nothing to do" return
-            if not any('::first(' in v for v in cm):
-                seen.add('up-to-date')
-                ctx.check(ser == {'Equal'}, 'K4', 'calc_deltas:nothing-to-do<=serial-equal',
-                          'the empty delta list (already up to date) is returned only for an EQUAL serial',
-                          'calc_deltas reports "nothing to do" for serial relation %s (notified vs local): a notified serial below the '
-                          'local one in the same session (server roll-back) must not be treated as up to date - delta_update would '
-                          'record the lower serial as a successful update over divergent content' % sorted(ser), loc=p.ret_site.loc() if p.ret_site else None)
-                continue
+        if p.kind == 'return' and re.match(r'^Result::Ok\((array\(\)|const\(.*\[\s*\].*\)|call:.*::default\(?\)?)\)$', o):
+            # the "nothing to do" return: Ok(&[])
+            seen.add('up-to-date')
+            ctx.check(ser == {'Equal'}, 'K4', 'calc_deltas:nothing-to-do<=serial-equal',
+                      'the empty delta list (already up to date) is returned only for an EQUAL serial',
+                      'calc_deltas reports "nothing to do" for serial relation %s (notified vs local): a notified serial below the '
+                      'local one in the same session (server roll-back) must not be treated as up to date - delta_update would '
+                      'record the lower serial as a successful update over divergent content' % (sorted(ser) if ser else None),
+                      loc=p.ret_site.loc() if p.ret_site else None)
+            continue
         if 'BadDeltaSet' in o:
             seen.add('bad-delta-set')
         if 'OutdatedLocal' in o:
             seen.add('outdated-local')
+            # the most recent comparison of a delta's serial with local+1 on this path says "greater"
             c = None
             for v_, labs_, _bb in p.conds:
-                if re.search(r'^call:Ord[^(]*::cmp\(call:DeltaInfo::serial', v_):
-                    c = set(labs_)
+                v0 = v_
+                if 'DeltaInfo::serial' in v0 and 'checked_add(state.serial,const(1))' in v0 and (v0.startswith('cmp(') or re.search(r'^call:Ord[^(]*::cmp\(', v0)):
+                    first_is_delta = v0.index('DeltaInfo::serial') < v0.index('checked_add(state.serial')
+                    c = set(labs_) if first_is_delta else set({'Less': 'Greater', 'Greater': 'Less', 'Equal': 'Equal'}.get(x, x) for x in labs_)
             ctx.check(c == {'Greater'}, 'K4', 'calc_deltas:first>local+1=>OutdatedLocal', 'first delta too new -> snapshot', 'OutdatedLocal under %s' % (c,))
         if 'TooManyDeltas' in o:
             seen.add('too-many')
@@ -111,7 +114,10 @@ def rule_calc_deltas(ctx):
     need = {'new-session', 'up-to-date', 'bad-delta-set', 'outdated-local'}
     ctx.check(need <= seen, 'K4', 'calc_deltas:rows', 'rows present: %s' % sorted(seen), 'rows missing: %s' % sorted(need - seen))
     # start serial = local + 1
-    ok = any('checked_add(state.serial,const(1))' in describe(b.origin_of_operand(a)) for s in b.calls('re:Ord.*::cmp$') for a in s.term['args'])
+    ok = any('checked_add(state.serial,const(1))' in describe(b.origin_of_operand(a)) for s in b.calls('re:Ord.*::cmp$') for a in s.term['args']) or \
+        any('checked_add(state.serial,const(1))' in v and 'DeltaInfo::serial' in v for p in paths for v in p.cond_map()) or \
+        any('checked_add(state.serial,const(1))' in (pp.outcome or '') + ' '.join(pp.cond_map()) and 'DeltaInfo::serial' in (pp.outcome or '') + ' '.join(pp.cond_map())
+            for c in ctx.closures(b) for pp in enumerate_paths(c, ctx.facts))
     ctx.check(ok, 'K4', 'calc_deltas:start=local+1', 'the first delta applied is local serial + 1', 'start serial is not state.serial + 1')
     # contiguity
     contig = False
@@ -135,6 +141,29 @@ def rule_calc_deltas(ctx):
                                and b.can_reach(a.bb, site.bb)]
                         if ssw and oks and all(b.path_avoiding(o_.bb, avoid_edges=ee, start=a.bb) is None for o_ in oks):
                             contig, where = True, 'calc_deltas (consecutive-serial check on the selected deltas)'
+    if not contig:
+        # an explicit loop over `deltas.windows(2)`: a pair that is not (s, s+1) ends in BadDeltaSet, and the delta list is
+        # only returned after that loop ran to its end
+        pair_rx = re.compile(r'checked_add\(call:DeltaInfo::serial\(.*\),const\(1\)\).*DeltaInfo::serial|DeltaInfo::serial.*checked_add\(call:DeltaInfo::serial\(.*\),const\(1\)\)')
+        rejects = loops_done = 0
+        ok_all = True
+        for p in paths:
+            if p.kind != 'return':
+                continue
+            cm = p.cond_map()
+            o = p.outcome or ''
+            pc = [(v, set(l)) for v, l in cm.items() if pair_rx.search(v)]
+            differs = [1 for v, l in pc if (v.startswith('cmp(') and 'Equal' not in l) or (not v.startswith('cmp(') and l in ({'true'}, {'false'}) and
+                                                                                       ((('::ne(' in v) and l == {'true'}) or (('::eq(' in v) and l == {'false'})))]
+            if differs:
+                rejects += 1
+                ok_all = ok_all and 'BadDeltaSet' in o
+            if o.startswith('Result::Ok(') and not re.match(r'^Result::Ok\((array\(\)|const\()', o):
+                done = any(re.search(r'::next\(.*[Ww]indows', v) and set(l) == {'None'} for v, l in cm.items())
+                loops_done += done
+                ok_all = ok_all and done
+        if rejects and loops_done and ok_all:
+            contig, where = True, 'calc_deltas (loop over consecutive pairs)'
     ctx.check(contig, 'K4', 'delta-list-contiguity-verified',
               'the delta list is verified to be consecutive before it is applied (%s)' % where,
               'nothing between parsing the notification and applying deltas verifies that the serials are consecutive (only '
@@ -192,7 +221,45 @@ def rule_check_deltas(ctx):
     b = ctx.body('collector::rrdp::update::Notification::check_deltas')
     # the loop runs over ALL deltas: into_iter(deltas(content)) with no adaptor in between
     nxt = [s for s in b.calls('re:Iterator>?::next$')]
-    ctx.floor('K4', 'loop over the notified deltas', len(nxt), 1)
+    anys = [s for s in b.calls('re:Iterator>?::any$')] if not nxt else []
+    ctx.floor('K4', 'loop over the notified deltas', len(nxt) + len(anys), 1)
+    if anys:
+        # `deltas().iter().any(|delta| state.delta_state.get(&delta.serial()).is_some_and(|known| *known != delta.hash()))`
+        for s in anys:
+            o = b.origin_of_operand(s.term['args'][0])
+            cs = [norm(c.callee) for c in o.calls()]
+            adapt = [c for c in cs if re.search(r'::(skip_while|skip|filter|take|take_while|step_by|filter_map|rev|chain)$', c)]
+            src = [c for c in cs if c.endswith('NotificationFile::deltas')]
+            ctx.check(bool(src) and not adapt, 'K4', 'check_deltas:iterates-all-notified-deltas',
+                      'check_deltas looks at every delta of the notification file',
+                      'check_deltas iterates over %s: deltas the client has already applied are no longer compared with the recorded '
+                      'hashes' % (adapt or cs), loc=s.loc())
+        cl = ctx.closures(b)
+        texts = []
+        for c in cl:
+            ctx.bodies.add(c.nid)
+            for pth in enumerate_paths(c, ctx.facts):
+                texts.append((c.nid, pth.outcome or '', dict(pth.cond_map())))
+        looks_up = any(cc.calls('re:HashMap.*::get$') and any('delta_state' in arg_desc(g, 0) and 'serial' in arg_desc(g, 1)
+                                                                 for g in cc.calls('re:HashMap.*::get$')) for cc in cl)
+        differs = any(re.search(r'(^|[(:])(Ne|ne)\(', o) and 'hash' in o.lower() for _n, o, _c in texts) or \
+            any(o == 'const(1)' and any(v.startswith('cmp(') and 'hash' in v.lower() and 'Equal' not in l for v, l in c.items()) for _n, o, c in texts)
+        ctx.check(looks_up and differs, 'K4', 'check_deltas:predicate=recorded-and-hash-differs',
+                  'the predicate is "recorded for this serial and the hash differs"',
+                  'the `any` predicate of check_deltas does not look up the recorded hash of the delta\'s serial and compare it for inequality')
+        n = 0
+        for p in enumerate_paths(b, ctx.facts):
+            if p.kind != 'return':
+                continue
+            av = [set(l) for v, l in p.cond_map().items() if re.match(r'^call:Iterator>?::any\(', v)]
+            if av and av[0] == {'true'}:
+                n += 1
+                ctx.check('DeltaMutation' in (p.outcome or ''), 'K4', 'check_deltas:hash-differs=>DeltaMutation',
+                          'a recorded delta whose hash changed yields Err(DeltaMutation)', 'a mutated delta yields %s' % p.outcome)
+            elif av and av[0] == {'false'}:
+                ctx.check((p.outcome or '').startswith('Result::Ok'), 'K4', 'check_deltas:no-mutation=>Ok', 'no mutation: Ok', 'no mutation yields %s' % p.outcome)
+        ctx.floor('K4', 'mutation rows of check_deltas', n, 1)
+        return
     for s in nxt:
         o = b.origin_of_operand(s.term['args'][0])
         cs = [norm(c.callee) for c in o.calls()]
